@@ -35,10 +35,20 @@ import (
 // in-memory connection
 
 var errWouldBlock = errors.New("verif: read would block (no data, stream not closed)")
+var errDeadlock = errors.New("verif: deadlock: both ends wait for input that nobody will write")
 
-type half struct {
+// link is the shared state of the two directions: one lock, so that "both ends are waiting
+// and neither has anything to read" is decided on the state, never on time.
+type link struct {
 	mu       sync.Mutex
 	cond     *sync.Cond
+	waiting  [2]bool // end i is blocked in Read
+	finished [2]bool // end i has returned from its handshake
+	dead     bool
+}
+
+type half struct {
+	l        *link
 	buf      []byte // everything the source end has written
 	visible  int    // prefix of buf the reading end may see
 	rpos     int    // served to the reading end
@@ -52,15 +62,17 @@ type half struct {
 	sawEOF   bool
 }
 
-func newHalf() *half {
-	h := &half{corrPos: -1}
-	h.cond = sync.NewCond(&h.mu)
-	return h
+func newLink() *link {
+	l := &link{}
+	l.cond = sync.NewCond(&l.mu)
+	return l
 }
 
+func newHalf(l *link) *half { return &half{l: l, corrPos: -1} }
+
 func (h *half) write(p []byte) (int, error) {
-	h.mu.Lock()
-	defer h.mu.Unlock()
+	h.l.mu.Lock()
+	defer h.l.mu.Unlock()
 	if h.closed {
 		return 0, io.ErrClosedPipe
 	}
@@ -69,23 +81,27 @@ func (h *half) write(p []byte) (int, error) {
 }
 
 func (h *half) publish() {
-	h.mu.Lock()
+	h.l.mu.Lock()
 	h.visible = len(h.buf)
-	h.mu.Unlock()
-	h.cond.Broadcast()
+	h.l.mu.Unlock()
+	h.l.cond.Broadcast()
 }
 
 func (h *half) closeWrite() {
-	h.mu.Lock()
+	h.l.mu.Lock()
 	h.visible = len(h.buf)
 	h.closed = true
-	h.mu.Unlock()
-	h.cond.Broadcast()
+	h.l.mu.Unlock()
+	h.l.cond.Broadcast()
 }
 
-func (h *half) read(p []byte) (int, error) {
-	h.mu.Lock()
-	defer h.mu.Unlock()
+// read serves end `me` (0 client, 1 server) from h; out is what that end writes to.
+func (h *half) read(p []byte, me int, out *half) (int, error) {
+	l := h.l
+	l.mu.Lock()
+	defer l.mu.Unlock()
+	out.visible = len(out.buf) // whatever we wrote becomes visible when we start waiting for input
+	l.cond.Broadcast()
 	h.nreads++
 	if h.timeouts[h.rpos] > 0 {
 		h.timeouts[h.rpos]--
@@ -95,7 +111,19 @@ func (h *half) read(p []byte) (int, error) {
 		if h.strict {
 			return 0, errWouldBlock
 		}
-		h.cond.Wait()
+		if l.dead {
+			return 0, errDeadlock
+		}
+		other := 1 - me
+		otherStuck := l.finished[other] || (l.waiting[other] && out.rpos == out.visible && !out.closed)
+		if otherStuck {
+			l.dead = true
+			l.cond.Broadcast()
+			return 0, errDeadlock
+		}
+		l.waiting[me] = true
+		l.cond.Wait()
+		l.waiting[me] = false
 	}
 	if h.rpos == h.visible {
 		h.sawEOF = true
@@ -118,15 +146,24 @@ func (h *half) read(p []byte) (int, error) {
 	return n, nil
 }
 
+func (l *link) finish(me int, out *half, failed bool) {
+	l.mu.Lock()
+	l.finished[me] = true
+	out.visible = len(out.buf)
+	if failed {
+		out.closed = true
+	}
+	l.mu.Unlock()
+	l.cond.Broadcast()
+}
+
 type endConn struct {
+	me            int
 	in, out       *half
 	local, remote net.Addr
 }
 
-func (c *endConn) Read(p []byte) (int, error) {
-	c.out.publish() // whatever we wrote becomes visible when we start waiting for input
-	return c.in.read(p)
-}
+func (c *endConn) Read(p []byte) (int, error)         { return c.in.read(p, c.me, c.out) }
 func (c *endConn) Write(p []byte) (int, error)        { return c.out.write(p) }
 func (c *endConn) Close() error                       { c.out.closeWrite(); return nil }
 func (c *endConn) LocalAddr() net.Addr                { return c.local }
@@ -144,6 +181,7 @@ type pktReq struct {
 	Flush bool   `json:"flush"`
 	Seed  int64  `json:"seed"`
 	API   int    `json:"api"` // 0 WritePacket[NoFlush], 1 WritePacket2, 2 header/body parts/trailer
+	Raw   int    `json:"raw"` // > 0: not a packet: Flush, then this many raw padding words (plain streams)
 }
 
 type corrReq struct {
@@ -268,11 +306,12 @@ type pair struct {
 
 // handshake builds the pair and runs HandshakeClient / HandshakeServer concurrently.
 func handshake(q req, c2sCuts, s2cCuts []int, ckey string, skeys []string, ctrust, strust [][]*net.IPNet, cforce, sforce bool, addrKind string) (*pair, string) {
-	p := &pair{c2s: newHalf(), s2c: newHalf()}
+	l := newLink()
+	p := &pair{c2s: newHalf(l), s2c: newHalf(l)}
 	p.c2s.cuts, p.s2c.cuts = c2sCuts, s2cCuts
 	ca, sa := addrs(addrKind)
-	cc := &endConn{in: p.s2c, out: p.c2s, local: ca, remote: sa}
-	sc := &endConn{in: p.c2s, out: p.s2c, local: sa, remote: ca}
+	cc := &endConn{me: 0, in: p.s2c, out: p.c2s, local: ca, remote: sa}
+	sc := &endConn{me: 1, in: p.c2s, out: p.s2c, local: sa, remote: ca}
 	rb, wb := q.RBuf, q.WBuf
 	if rb == 0 {
 		rb = 4096
@@ -288,11 +327,7 @@ func handshake(q req, c2sCuts, s2cCuts []int, ckey string, skeys []string, ctrus
 			if r := recover(); r != nil {
 				p.errC = fmt.Errorf("panic: %v", r)
 			}
-			if p.errC != nil {
-				p.c2s.closeWrite()
-			} else {
-				p.c2s.publish()
-			}
+			l.finish(0, p.c2s, p.errC != nil)
 			done <- 1
 		}()
 		p.errC = p.client.HandshakeClient(ckey, ctrust, cforce, 1000, 0, 0, q.Ver)
@@ -302,11 +337,7 @@ func handshake(q req, c2sCuts, s2cCuts []int, ckey string, skeys []string, ctrus
 			if r := recover(); r != nil {
 				p.errS = fmt.Errorf("panic: %v", r)
 			}
-			if p.errS != nil {
-				p.s2c.closeWrite()
-			} else {
-				p.s2c.publish()
-			}
+			l.finish(1, p.s2c, p.errS != nil)
 			done <- 2
 		}()
 		_, _, p.errS = p.server.HandshakeServer(skeys, strust, sforce, 2000, 0)
@@ -370,6 +401,10 @@ func oneRun(q req, corr *corrReq) (res runRes) {
 	res.HsErrA, res.HsErrB = errText(errA), errText(errB)
 	res.EncA, res.EncB = a.Encrypted(), b.Encrypted()
 	res.VerA, res.VerB = a.ProtocolVersion(), b.ProtocolVersion()
+	if errors.Is(errA, errDeadlock) || errors.Is(errB, errDeadlock) {
+		res.Fail = "deadlock during the handshake: an end waits for bytes that were already delivered to it or never written"
+		return
+	}
 	if errA != nil || errB != nil {
 		return
 	}
@@ -391,6 +426,14 @@ func oneRun(q req, corr *corrReq) (res runRes) {
 		body := genBody(pk.Seed, pk.Len)
 		var err error
 		switch {
+		case pk.Raw > 0:
+			if err = a.Flush(); err == nil {
+				pad := make([]byte, 4*pk.Raw)
+				for j := 0; j < len(pad); j += 4 {
+					pad[j] = rpc.VerifPadVal
+				}
+				_, err = a.WriteRawBytes(pad)
+			}
 		case pk.API == 1 && pk.Flush:
 			k := 0
 			if pk.Len > 0 {
